@@ -64,6 +64,8 @@ def run_static(ctx, prop, scenario, variants, sections, rule, level="model_check
         for c in exported:
             if vmax is not None and taken >= vmax:
                 break
+            if v.get("only") and not v["only"](c):
+                continue
             taken += 1
             if ("compact" in v["impl"] or v["impl"] in ("diff", "layered-mixed")) and v["impl"] != "pardiff-basic":
                 # two known deviations of the compact builder are kept out of the properties they do not belong to:
@@ -78,7 +80,7 @@ def run_static(ctx, prop, scenario, variants, sections, rule, level="model_check
             k = dict(c)
             k.update({"id": len(cases), "impl": v["impl"], "cores": v.get("cores", 1), "split": v.get("split", 1),
                       "keys": keys, "ids": ids, "queries": qs, "sections": v.get("sections", sections),
-                      "order": v.get("order", "")})
+                      "order": v.get("order", ""), "replicas": v.get("replicas", 0)})
             cases.append(k)
     if cases:
         c0 = cases[min(len(cases) - 1, 11)]
